@@ -710,6 +710,12 @@ def m_all(I, xs):
 
 
 def m_list(I, xs=()):
+    from .absx import AbsColl
+    if isinstance(xs, AbsColl):
+        # list(view): a snapshot with the same elements in the same order
+        snap = AbsColl(xs.name + "@snapshot", **xs.info)
+        snap.facts = xs.facts
+        return snap
     if isinstance(xs, MDict):
         return [k for k, _ in xs.entries]
     return list(py_iter(I, xs))
